@@ -462,7 +462,12 @@ func (c *checker) run(j job) {
 			// entry, the cause is the entry derivation (named by field), otherwise the signing
 			cause, feat := "entry-as-queued-matches-reference logkey="+j.lk.Kind, "kind="+sh.kind
 			if len(queued) == 1 {
-				if f := diffEntry(queued[0].Req.(*trillian.QueueLeafRequest).Leaf.LeafValue, refMTL(entry, reqMS)); f != "" && f != "timestamp" {
+				lv := queued[0].Req.(*trillian.QueueLeafRequest).Leaf.LeafValue
+				qts := reqMS
+				if g, err := ct6962.ParseMerkleTreeLeaf(lv); err == nil {
+					qts = g.Entry.Timestamp // the timestamp is judged separately
+				}
+				if f := diffEntry(lv, refMTL(entry, qts)); f != "" {
 					cause, feat = "front-end-derives-different-"+f, sh.featuresFor(f)
 				}
 			}
